@@ -120,6 +120,21 @@ CLAIMS = {
         "forward-headers default; list prints exactly the reply's services sorted by name. Tied by running the binary over the finite "
         "tables, a connection-counting stub socket, and a real proxy with loopback targets (exit codes, list output bytes).",
    note=TB + "Partial: cobra/pflag and process exit are runtime; strconv is modelled."),
+
+'C15': dict(engine='faults', technique='Lean 4 proof (decision logic over the complete fault table; no-residue lemma on the concurrent model) + fault enumeration through the full in-memory stack diffed against the model',
+   text="Theorems: the error classification is total with a fixed priority; every fault before the header block gives a complete error "
+        "response - 504 exactly at the target timeout for silence, 502 at once otherwise - rendered with the service's page for that "
+        "status if it has one else the built-in page (never the bare fallback); stalls either side of the timeout; every fault after the "
+        "header block is never presented as complete (buffered: nothing delivered); a request that ended in any way counts as finished "
+        "for later drains. Tied by enumerating the fault points against the real handler chain, ReverseProxy and Transport on an "
+        "in-memory network with a virtual clock.",
+   note=TB + "Partial: the mapping wire fault -> Go error, and wall-clock promptness, live in net/http; they are tied by enumeration only."),
+ 'C19': dict(engine='faults', technique='Lean 4 proof (writer semantics over event traces; record status/bytes per outcome class) + differential run capturing the JSON access log',
+   text="Theorems: the logging writer's byte count is the sum of the successful writes and its status the last header written (101 after a "
+        "hijack); for every outcome class of a routed request the record's status is the status the client saw and its byte count the body "
+        "bytes handed to the client's writer; client abort => 499/0 bytes; unrouted => 404 with no service and target. Tied by capturing the "
+        "JSON log of one request per outcome class x sizes x header lists and comparing record count (exactly 1) and every field.",
+   note=TB + "Partial: net/http's own accounting towards the client is assumed; deferred emission on panic is exercised (mid-body faults) not proved."),
 }
 
 NA_REASON = {}
